@@ -18,6 +18,7 @@ from vlib import core, impl, x_c16 as X
 from vlib.core import enc_bool, enc_list, enc_opt
 
 SIG_F14 = "C16-F14: unbounded recurring VTODO with DUE=DTSTART or DURATION 0, time range ending exactly at the first DTSTART"
+SIG_F20 = "C16-F20: recurring zero-length VEVENT (DTEND = DTSTART), time range starting or ending exactly at an instance"
 
 
 def classify(o, r):
@@ -27,6 +28,8 @@ def classify(o, r):
         return "C16-F13: time-range without start and end: answer depends on the storage shortcut"
     if X.known_f14(o, r):
         return SIG_F14
+    if X.known_f20(o, r):
+        return SIG_F20
     if rec and not rec["bound"] and X.ref_start(o) in rec["ex"]:
         return "C16: unbounded rule whose first instance is removed by EXDATE: enclosing range / answer taken from DTSTART"
     if o["t"] == "VEVENT" and o["end"] and o["end"][0] == "dur" and o["end"][1] > 0 and o["end"][1] % X.DAY == 0:
@@ -50,7 +53,7 @@ SIG_SPELLING = "C16: comp-filter name not in upper case: comp_match and the stor
 def classify_q(o, r, sp, comp):
     """like classify, but a query whose comp-filter names are not upper case is its own class (except the known F14)"""
     c = classify(o, r)
-    if c == SIG_F14:
+    if c in (SIG_F14, SIG_F20):
         return c
     if sp and (sp.get(comp, comp) != comp or sp.get("VCALENDAR", "VCALENDAR") != "VCALENDAR"):
         return SIG_SPELLING
